@@ -222,27 +222,27 @@ impl<T: Clone> WithSpec<T> {
         val: T,
     ) {
         if self.val.is_some() {
-            // We already have a value, so need to check.
-            if self.important && !important {
-                // important takes priority over not important.
-                return;
-            }
-            // importance is the same.  Next is checking the origin.
-            {
+            // We already have a value, so need to check.  The cascade orders
+            // declarations by importance and origin first:
+            //   agent < user < author < author !important
+            //         < user !important < agent !important
+            // and only among declarations of the same importance and origin
+            // by specificity.  On a complete tie the later one wins.
+            fn rank(important: bool, origin: StyleOrigin) -> u8 {
                 use StyleOrigin::*;
-                match (self.origin, origin) {
-                    (Agent, Agent) | (User, User) | (Author, Author) => {
-                        // They're the same so continue the comparison
-                    }
-                    (mine, theirs) => {
-                        if (important && theirs > mine) || (!important && mine > theirs) {
-                            return;
-                        }
-                    }
+                match (important, origin) {
+                    (_, None) => 0,
+                    (false, Agent) => 1,
+                    (false, User) => 2,
+                    (false, Author) => 3,
+                    (true, Author) => 4,
+                    (true, User) => 5,
+                    (true, Agent) => 6,
                 }
             }
-            // We're now from the same origin an importance
-            if specificity < self.specificity {
+            let mine = rank(self.important, self.origin);
+            let theirs = rank(important, origin);
+            if theirs < mine || (theirs == mine && specificity < self.specificity) {
                 return;
             }
         }
